@@ -7,6 +7,10 @@ ALL = [f"C{i:02d}" for i in range(1, 21)]
 
 # property -> (design section, level text, level note, technique)
 CHECKS = {
+ "C05": ("6/C05",
+         "Coq theorems over Model/Pdo.v (PdoMap layout, PdoVariable.get_data/set_data composed with the C04 codec) for every layout, every well-formed frame, every entry kind the property names (integer objects with their own length, sub-byte fields of 8-bit objects, BOOLEAN as one bit, REAL32/64) at every bit offset and every value: the value read is exactly the bit field (sign-extended from the mapped length), a write changes exactly the field bits to the value low bits and keeps the frame length, read-after-write, non-interference with disjoint fields, out-of-range values refused; tied to /repo by the regenerated type table and by evaluating model and implementation on the same layouts, frames and operation sequences",
+         "trusted: Coq kernel + vm_compute, gen_tables.py, correspondence harness; CPython int.from_bytes/to_bytes and bytearray slicing are modelled, not verified",
+         "Coq proof (bit-field lemmas over Z, induction on byte lists) + regenerated tables + model/implementation correspondence"),
  "C04": ("6/C04",
          "Coq theorems over Model/Codec.v for every type of the regenerated STRUCT_TYPES table, every integer value and every byte string: exact little-endian two's-complement encoding, both round trips, rejection outside the range and for wrong lengths, BOOLEAN, REAL32/64 on bit patterns, ASCII and UTF-16 text round trips; the model is tied to /repo by the regenerated table and by evaluating model and implementation on the same cases",
          "trusted: Coq kernel + vm_compute, gen_tables.py, correspondence harness; CPython struct float rounding and codecs are modelled, not verified",
